@@ -12,16 +12,80 @@ reported under this property too.  Findings that are listed as known
 findings of their own property are not repeated.
 """
 import contextlib
+import glob
+import hashlib
 import io
+import json
+import os
 
 from .. import frontend, report, scope
 
+HERE = os.path.dirname(os.path.dirname(os.path.abspath(__file__)))
+CACHE_DIR = os.path.join(os.path.dirname(HERE), '.cache', 'attribution')
+_CHECKER_DIGEST = []
+
+
+def _checker_digest():
+    """Digest of the checker itself (every source file, the inventory,
+    the known findings): a cached result is only good for the checker
+    that computed it."""
+    if not _CHECKER_DIGEST:
+        h = hashlib.sha256()
+        files = sorted(glob.glob(os.path.join(HERE, '**', '*.py'),
+                                 recursive=True))
+        files += [os.path.join(HERE, 'inventory.json'),
+                  os.path.join(os.path.dirname(HERE),
+                               'known_findings.json')]
+        for f in files:
+            try:
+                h.update(f.encode())
+                h.update(open(f, 'rb').read())
+            except OSError:
+                pass
+        _CHECKER_DIGEST.append(h.hexdigest())
+    return _CHECKER_DIGEST[0]
+
+
+def _tree_digest(P):
+    h = hashlib.sha256()
+    for name in sorted(P.units):
+        u = P.units[name]
+        h.update(name.encode())
+        h.update((getattr(u, 'text', None) or '').encode())
+    h.update(os.environ.get('DDVERIF_NO_NORMALISE', '').encode())
+    return h.hexdigest()
+
+
+def _cache_file(P):
+    return os.path.join(CACHE_DIR, _checker_digest()[:16],
+                        _tree_digest(P)[:32] + '.json')
+
 
 def all_findings(P):
-    """[(property the rule belongs to, Finding), ...] for the program."""
+    """[(property the rule belongs to, Finding), ...] for the program.
+
+    The result depends on the parsed sources and on the checker only; it
+    is kept on disk under /verif/.cache (not committed) keyed by both, so
+    that the thorough tier of the 19 properties does not analyse the same
+    scratch copy 19 times.  Any problem with the cache means: compute."""
     cache = P.__dict__.setdefault('_attr_cache', dict())
     if 'findings' in cache:
         return cache['findings'], cache['instances']
+    path = None
+    if not os.environ.get('DDVERIF_NO_CACHE'):
+        try:
+            path = _cache_file(P)
+            with open(path) as f:
+                d = json.load(f)
+            out = [(m, report.Finding(
+                x['rule'], x['sub'], x['function'], x['construct'],
+                x['message'], x['unit'], x['line'], x['path'],
+                x['statements'])) for m, x in d['findings']]
+            cache['findings'] = out
+            cache['instances'] = d['instances']
+            return out, d['instances']
+        except (OSError, ValueError, KeyError, TypeError):
+            pass
     from .. import props
     out = []
     n_inst = 0
@@ -45,6 +109,17 @@ def all_findings(P):
         out.extend((mode, f) for f in res.findings)
     cache['findings'] = out
     cache['instances'] = n_inst
+    if path is not None:
+        try:
+            os.makedirs(os.path.dirname(path), exist_ok=True)
+            tmp = f'{path}.{os.getpid()}.tmp'
+            with open(tmp, 'w') as f:
+                json.dump(dict(
+                    findings=[(m, x.to_json()) for m, x in out],
+                    instances=n_inst), f)
+            os.replace(tmp, path)
+        except (OSError, TypeError, ValueError):
+            pass
     return out, n_inst
 
 
